@@ -552,6 +552,9 @@ fn corpus() -> Vec<Vec<Step>> {
         // importer first, missing module added later (new module after an evaluation)
         vec![Step::Load(1, i(10, &[(0, true)])), Step::Load(0, i(1, &[])), Step::Get(1)],
         vec![Step::Set(1, i(10, &[(0, true)])), Step::Get(1), Step::Set(0, i(1, &[])), Step::Get(0), Step::Get(1)],
+        // … the late module brings a type error / closes a cycle
+        vec![Step::Set(1, i(10, &[(0, true)])), Step::Get(1), Step::Set(0, s(1)), Step::Get(1)],
+        vec![Step::Set(1, i(10, &[(0, true)])), Step::Get(1), Step::Set(0, i(1, &[(1, true)])), Step::Get(1)],
         // value change, type change, type error introduced in a dependency
         vec![Step::Set(0, i(1, &[])), Step::Set(1, i(10, &[(0, true)])), Step::Get(1), Step::Set(0, i(2, &[])), Step::Get(1), Step::Set(0, s(3)), Step::Get(1), Step::Get(0)],
         // a reload introduces the cycle m1 -> m0 -> m1, then removes it
@@ -688,7 +691,7 @@ fn main() {
     let mut out = Out::new(&args.out);
     let mut rng = gv::rng::Rng::new(args.seed, 15);
     let mut hs = corpus();
-    let n = if args.thorough() { 40000 } else { 3000 };
+    let n = if args.thorough() { 60000 } else { 5000 };
     for _ in 0..n {
         hs.push(gen_history(&mut rng));
     }
